@@ -97,4 +97,9 @@ def kafkaKind (maxSize maxBytes : Nat) : Kind where
     else (.ok, { b with payload := b.payload ++ [m], bytes := b.bytes + m.size, txns := updateTxns b.txns m })
   isFull b := decide (maxSize ≤ b.payload.length)
 
+/-- when `Add` refreshes the batch's modify time (`mtime`, input of the idle-age flush rule of
+`handleTicker`): exactly when a record was appended. A dropped (too big), refused or invalid
+record leaves it alone; the create time never changes. -/
+def touchesMtime (r : AddRes) : Bool := r == .ok
+
 end PgBifrost.Batch
